@@ -57,13 +57,13 @@ def make_slice_and_pad(
     if z0 < 0:
         z0_pad = -z0
         z0 = 0
-    elif size < z0:
+    elif size <= z0:
         raise SubvolumeOutOfBoundError(slice(z0, z1), size)
 
     if size < z1:
         z1_pad = z1 - size
         z1 = size
-    elif z1 < 0:
+    elif z1 <= 0:
         raise SubvolumeOutOfBoundError(slice(z0, z1), size)
 
     out_of_bound = z0_pad != 0 or z1_pad != 0
